@@ -35,6 +35,7 @@ class Suite:
     require_tag: t.Optional[str] = None          # only cases whose reference evaluation carries this tag
     unnamed_switches: bool = False               # SwitchCase marks without name= (uuid-suffixed synthetic ids)
     shared_switch_names: bool = False            # identical SwitchCase marks of several consumers share one name
+    inputs: t.Optional[dict] = None              # the caller's input_kwargs (default {'x': 1})
 
 
 TERM = {'deadlock', 'livelock'}
@@ -104,6 +105,10 @@ def suites(prop: str, tier: str) -> t.List[Suite]:
             Suite('d0-async', GEN + ['corpus'], ['kwargs'], 0, ['async'], symptoms=KW),
             Suite('d0-thread', GEN + ['corpus'], ['kwargs'], 0, ['thread'], symptoms=KW),
             Suite('twice', ['twice'], ['kwargs'], 0, ['async'], symptoms=KW),
+            # the caller passes an object that can be neither copied nor pickled, plus a key the input node does not declare:
+            # the input node must receive exactly these
+            Suite('opaque-input', ['corpus', 'plain', 'rec'], ['kwargs'], 0, ['async', 'thread'], symptoms=KW, max_nodes=4 if q else 5,
+                  inputs={'x': '@opaque', 'extra': 7}),
             Suite('shared-gated-complete', ['corpus', 'switch', 'oneof'], ['kwargs'], 0, ['async'], collab={'mode': 'gated', 'gate_kinds': ['node_complete']},
                   symptoms=KW, plans='ok', max_nodes=8 if q else 9, require_tag='node-requested-from-two-scopes', limit=30000),
             Suite('shared-gated-start', ['corpus', 'switch', 'oneof'], ['kwargs'], 0, ['async'], collab={'mode': 'gated', 'gate_kinds': ['node_start']},
@@ -137,6 +142,8 @@ def suites(prop: str, tier: str) -> t.List[Suite]:
             Suite('d0-async', GEN + ['corpus'], ['outcome', 'term'], 0, ['async'], symptoms=sym, plans='pairs' if q else 'std'),
         ] + ([] if q else [Suite('pairs', ['plain', 'oneof', 'switch', 'rec', 'mix', 'corpus'], ['outcome'], 0, ['async'], symptoms=sym, plans='pairs', max_nodes=5)]) + [
             Suite('d0-thread', GEN + ['corpus'], ['outcome', 'term'], 0, ['thread'], symptoms=sym, plans='std'),
+            Suite('opaque-input', ['corpus', 'plain', 'rec'], ['outcome', 'term'], 0, ['async', 'thread'], symptoms=sym, max_nodes=4 if q else 5,
+                  inputs={'x': '@opaque', 'extra': 7}),
             # the run's task set iterated in the opposite order: another of several failed tasks is seen first, the final
             # cancellation sweep runs the other way round
             Suite('reverse-task-order', ['plain', 'oneof', 'switch', 'rec', 'corpus'], ['outcome', 'term'], 0, ['async'], collab={'task_order': 'reverse'},
@@ -234,7 +241,7 @@ def suites(prop: str, tier: str) -> t.List[Suite]:
             for missing in _hook_subsets(q)
         ]
     if prop == 'C19':
-        sym = {'saved-recurrent', 'saved-failure', 'save-count', 'save-value', 'save-unknown-node'} | VERDICT | {'wrong-error'}
+        sym = {'saved-recurrent', 'saved-failure', 'save-count', 'save-lost', 'save-value', 'save-unknown-node'} | VERDICT | {'wrong-error'}
         return [
             Suite('once-d0', GEN + ['corpus'], ['saves', 'outcome'], 0, ['async'], collab={'store': 'once'}, symptoms=sym),
             Suite('once-d0-thread', GEN + ['corpus'], ['saves', 'outcome'], 0, ['thread'], collab={'store': 'once'}, symptoms=sym),
@@ -311,7 +318,7 @@ def work(arg: tuple) -> dict:
     for mode in suite.modes:
         sp = EN.with_mode(spec, mode) if mode != 'async' else spec
         for plan in case_plans(sp, suite, fam)[chunk[0]::chunk[1]]:
-            base = X.Case(sp, [plan], collab=dict(suite.collab), fam=fam)
+            base = X.Case(sp, [plan], collab=dict(suite.collab), fam=fam, **({'inputs': [dict(suite.inputs)]} if suite.inputs else {}))
             if suite.require_tag is not None:
                 from mc import ref as _R
                 if suite.require_tag not in _R.evaluate(sp, plan, base.inputs[0]).tags:
